@@ -11,10 +11,13 @@
     For the repaired guard ([GuardNew]: such a request schedules the next clock edge)
     clause (1) is proved for every topology: a connection is analysed in an arbitrary
     environment ([cstep]: any sends / retrievals on its ports by whatever components,
-    any timing).  Clause (2) is not proved here (what is missing: the analogous
-    invariant for a draining component — "unread input implies a request since its
-    last activation" — over [tick_later_ok] and the event-driven pendingWakeup guard,
-    which is C13's subject); it is checked on every run by the quiescent-state scan. *)
+    any timing).  Clause (2) does not involve TickNow (NotifyRecv uses TickLater /
+    ScheduleWakeNow) and is proved for the code as it is, again for a component in an
+    arbitrary environment ([dstep]).  What the two abstract systems do NOT give is a
+    single theorem about the executable whole-simulation model of Model.v: they share
+    its tick / port / scheduler definitions, but the statement that every run of the
+    scripted world projects onto [cstep] / [dstep] runs is not proved (it is exercised
+    by the exact tie and the quiescent-state scan on every run) — hence "_partial". *)
 From Akita Require Import Lib.Base Lib.Fifo Lib.Port Lib.Conn C10.Model C10.Exec C10.Proofs
      C09.Model C09.Proofs.
 Local Open Scope N_scope.
@@ -95,14 +98,40 @@ Proof.
 Qed.
 Print Assumptions c09_quiescent_clean_partial.
 
+(** Clause (2), code as it is: a component that drains its inputs (ticking: takes at
+    least one message from every non-empty input per tick; event-driven: empties every
+    input per wake-up), in an arbitrary environment (any deliveries into its ports, any
+    other notifications, any timing, whatever else its activations do):
+      unread input  ==>  notified since its last activation started  ==>  one of its
+      tick / wake-up events is pending;
+    hence when none of its events is pending, none of its ports holds an unread message. *)
+Theorem c09_draining_component_clean : forall k caps period (h : list dact) st, 1 <= period ->
+  dsteps (dinit k caps period) h = Some st ->
+  (unread (ds_ports st) -> ds_dirty st = true) /\
+  (ds_dirty st = true -> ds_q st <> []) /\
+  (ds_q st = [] -> forall p, In p (ds_ports st) -> content (p_in p) = []).
+Proof.
+  intros k caps period h st Hp H.
+  destruct (dsteps_inv h _ st (dinit_inv k caps period Hp) H) as ((_ & _ & _ & Hd) & Hu).
+  split; [exact Hu|]. split; [exact Hd|].
+  intros Hq p Hin. destruct (content (p_in p)) as [|x r] eqn:E; [reflexivity|].
+  exfalso. apply Hd; [|exact Hq]. apply Hu. exists p. split; [exact Hin|].
+  unfold in_len. rewrite E. discriminate.
+Qed.
+Print Assumptions c09_draining_component_clean.
+
 (** Non-vacuity: the hypotheses are met by a real run of the abstract system — a send,
     the tick that delivers it, a retrieval; and the scheduler invariant holds initially. *)
 Example c09_nonvacuous :
   let h := [CSend 0 (mk_msg 1 1 2 7); CHandle 0; CRetrieve 1; CAdvance 1000; CHandle 1000] in
   (exists st, csteps GuardNew (cinit [(1, 1); (1, 1)]%Z 1000) h = Some st /\ cs_q st = []) /\
+  (exists st, dsteps (dinit DEvent [(2, 1)]%Z 1000)
+                [DDeliver 0 (Some (mk_msg 1 2 1 7)); DDeliver 0 (Some (mk_msg 2 2 1 8)); DHandle 0 [2%nat] false]
+              = Some st /\ ds_q st = []) /\
   sched_inv (mk_sched false 0 1000 true None) [] 0.
 Proof.
-  split.
+  split; [|split].
+  - eexists. split; [vm_compute; reflexivity|reflexivity].
   - eexists. split; [vm_compute; reflexivity|reflexivity].
   - unfold sched_inv. cbn [s_period s_has s_next s_handled].
     split; [lia|]. split; [intros x []|]. split; [discriminate|]. intros x Hx. discriminate.
